@@ -387,11 +387,19 @@ fn floats<T: Tier + Dom<M = Sh>>(rep: &mut Report) {
             if in_deg {
                 // the Deg-typed entry points themselves (conversion inside the constructor)
                 let d: T = num_traits::cast::<f64, T>(th * 180.0 / PI).unwrap();
-                same_slice(ctx, &key("from_angle/Matrix2/Deg"), &flat_m(m2(Matrix2::from_angle(Deg(d)))), &flat_m(m2(Matrix2::from_angle(ang))));
-                same_slice(ctx, &key("from_axis_angle/Matrix3/Deg"), &flat_m(m3(Matrix3::from_axis_angle(mk_v3(ax), Deg(d)))), &flat_m(m3(Matrix3::from_axis_angle(mk_v3(ax), ang))));
+                // (the same rotation: entries agree to the rounding of the angle, however each unit reduces its argument)
+                let mut near = |name: &str, x: Vec<T>, y: Vec<T>| {
+                    ctx.t();
+                    let tol = 64.0 * T::U * (1.0 + th.abs());
+                    if T::EXACT { same_slice(ctx, &key(name), &x, &y); } else if !x.iter().zip(y.iter()).all(|(p, q)| (p.f() - q.f()).abs() <= tol) {
+                        ctx.fail(&key(name), || format!("built from Deg: {:?}, from the same angle in Rad: {:?}", x, y));
+                    }
+                };
+                near("from_angle/Matrix2/Deg", flat_m(m2(Matrix2::from_angle(Deg(d)))), flat_m(m2(Matrix2::from_angle(ang))));
+                near("from_axis_angle/Matrix3/Deg", flat_m(m3(Matrix3::from_axis_angle(mk_v3(ax), Deg(d)))), flat_m(m3(Matrix3::from_axis_angle(mk_v3(ax), ang))));
                 let qd: Quaternion<T> = Rotation3::from_axis_angle(mk_v3(ax), Deg(d));
                 let qr: Quaternion<T> = Rotation3::from_axis_angle(mk_v3(ax), ang);
-                same_slice(ctx, &key("from_axis_angle/Quaternion/Deg"), &qa(qd), &qa(qr));
+                near("from_axis_angle/Quaternion/Deg", qa(qd).to_vec(), qa(qr).to_vec());
             }
         },
     );
